@@ -25,7 +25,7 @@ FixV(v) ==
 FixCfgs(c) == [n \in Names |-> FixV(c[n])]
 FixOp(o) ==
     LET o1 == IF "v" \in DOMAIN o THEN [o EXCEPT !.v = FixV(@)] ELSE o
-        o2 == IF "k" \in DOMAIN o1 /\ o1.m # "item_set" THEN [o1 EXCEPT !.k = FixV(@)] ELSE o1
+        o2 == IF "k" \in DOMAIN o1 /\ o1.m \notin {"item_set", "item_reset"} THEN [o1 EXCEPT !.k = FixV(@)] ELSE o1
         o3 == IF "vs" \in DOMAIN o2 THEN [o2 EXCEPT !.vs = [i \in DOMAIN o2.vs |-> FixV(o2.vs[i])]] ELSE o2
     IN  IF "kv" \in DOMAIN o3 THEN [o3 EXCEPT !.kv = [i \in DOMAIN o3.kv |-> <<FixV(o3.kv[i][1]), FixV(o3.kv[i][2])>>]] ELSE o3
 
@@ -69,13 +69,14 @@ BadObs ==
 
 \* action properties, evaluated on the observed step
 BadAct ==
-    {n \in {"C01_Readback", "C06_Unchanged", "C12_Marks", "C12_Reset", "C13_Isolated", "C02_Reproduces"} :
+    {n \in {"C01_Readback", "C06_Unchanged", "C12_Marks", "C12_Reset", "C13_Isolated", "C02_Reproduces", "C11_ItemsInserted"} :
         CASE n = "C01_Readback"  -> ~A_Readback
           [] n = "C06_Unchanged" -> ~A_Unchanged
           [] n = "C12_Marks"     -> ~A_Marks
           [] n = "C12_Reset"     -> ~A_Reset
           [] n = "C13_Isolated"  -> ~A_Isolated
-          [] n = "C02_Reproduces" -> ~A_Reproduces}
+          [] n = "C02_Reproduces" -> ~A_Reproduces
+          [] n = "C11_ItemsInserted" -> ~A_ItemsInserted}
 
 Report ==
     LET bo == BadObs
